@@ -150,8 +150,11 @@ def run(ctx) -> None:
         # None means empty configuration
         none_ok = False
         for t in cfg.live_nodes():
-            if t.kind == "test" and isinstance(t.ast, ast.Compare) and isinstance(t.ast.left, ast.Name) and t.ast.left.id in loop_vars and isinstance(t.ast.comparators[0], ast.Constant) and t.ast.comparators[0].value is None:
-                none_ok = True
+            if t.kind == "test" and isinstance(t.ast, ast.Compare) and isinstance(t.ast.left, ast.Name) and isinstance(t.ast.comparators[0], ast.Constant) and t.ast.comparators[0].value is None:
+                from .common import def_use_closure as _duc
+
+                if t.ast.left.id in loop_vars or (_duc(init, t.ast.left) & set(loop_vars)):
+                    none_ok = True
         if not none_ok:
             for e in walk_own(loopnode):
                 if isinstance(e, ast.BoolOp) and isinstance(e.op, ast.Or) and isinstance(e.values[0], ast.Name) and e.values[0].id in loop_vars:
@@ -320,10 +323,7 @@ def _phase_window(ctx, an: Anchors, starter: FuncInfo, state_attr: str, state_en
         if root is None:
             continue
         for e in iter_own(root):
-            if isinstance(e, ast.Call) and isinstance(e.func, ast.Attribute) and e.func.attr in ("prepare", "start") and not isinstance(e.func.value, ast.Name) is False:
-                base = e.func.value
-                if isinstance(base, ast.Name) and base.id in ("tg", "task_group"):
-                    continue
+            if isinstance(e, ast.Call) and isinstance(e.func, ast.Attribute) and e.func.attr in ("prepare", "start") and not e.args and not e.keywords:
                 (prepare_nodes if e.func.attr == "prepare" else start_nodes).append(n)
 
     def members_at(nid: int) -> set:
@@ -455,6 +455,21 @@ def _remap_value(ctx, an: Anchors, init: FuncInfo, rd: ReachingDefs, rec_calls: 
         elif good is not None:
             rep.hold("C14.R4", init, good, "default resource name is the alias suffix after the first '/'")
             rep.check("C14.R4", "default" in cl.consts, init, rcall, "an alias without '/' keeps the name 'default'", "an alias without '/' does not fall back to 'default'")
+            # ... decided afresh for every child: no value survives from an earlier sibling
+            if isinstance(passed, ast.Name):
+                from .tables import enclosing_loops as _el14
+
+                loops_ = [l_ for l_ in _el14(init, rcall) if isinstance(l_[2], (ast.For, ast.While))]
+                if loops_:
+                    lp_ = loops_[-1][2]
+                    inside = {id(x) for b in lp_.body for x in ast.walk(b)}
+                    cfg14 = a.cfg(init)
+                    stale = []
+                    for d_ in rd.at(nid, passed.id):
+                        dn = cfg14.nodes[d_] if isinstance(d_, int) and d_ < len(cfg14.nodes) else None
+                        if dn is not None and isinstance(dn.ast, ast.AST) and dn.kind == "stmt" and id(dn.ast) not in inside:
+                            stale.append(dn)
+                    rep.check("C14.R4", not stale, init, stale[0].ast if stale else rcall, "the child's default resource name is (re)computed in every iteration of the child loop", f"`{passed.id}` can reach the child with a value from outside the iteration (`{ast.unparse(stale[0].ast)[:60] if stale else ''}`): after a `kind/name` sibling every later plain-alias sibling inherits that sibling's name instead of 'default'")
             rep.check("C14.R4", alias_v in cl.names or any(alias_v in names_in(e) for e in cl.exprs), init, good, "the suffix is taken from the alias", "the suffix is not taken from the alias")
         else:
             rep.unrecognised("C14.R4", init, rcall, "cannot recognise how the child's default resource name is derived from the alias")
@@ -537,6 +552,24 @@ def _type_resolution(ctx, an: Anchors, init: FuncInfo, rd: ReachingDefs, cfg_par
     else:
         rep.check("C14.R5", bool(checks) and cfg.dominates(checks[0].id, ctor[0].id), init, ctor[1], "the resolved type is checked to be a Component subclass before it is instantiated", "the resolved type is instantiated without the Component subclass check")
         if checks:
-            side = [d for d, lab in checks[0].succ if lab == "t"]
-            first = cfg.nodes[side[0]] if side else None
-            rep.check("C14.R5", first is not None and isinstance(first.ast, ast.Raise) and "TypeError" in ast.unparse(exc_expr(first.ast)), init, checks[0].ast, "a non-Component type raises TypeError", "a non-Component type does not raise TypeError")
+            def permits_false(expr, value: bool) -> bool:
+                """Can the issubclass(...) test be False when `expr` evaluates to `value`?"""
+                if isinstance(expr, ast.UnaryOp) and isinstance(expr.op, ast.Not):
+                    return permits_false(expr.operand, not value)
+                if isinstance(expr, ast.BoolOp):
+                    # and / or alike: the whole has this value only through its operands having it
+                    # (for `and`=False and `or`=True at least one operand; otherwise all of them)
+                    return any(permits_false(v, value) for v in expr.values)
+                if isinstance(expr, ast.Call) and call_name(expr) == "issubclass":
+                    return value is False
+                return False
+
+            def _mentions(e) -> bool:
+                return any(isinstance(x, ast.Call) and call_name(x) == "issubclass" for x in ast.walk(e))
+
+            bad_labs = [lab for lab in ("t", "f") if permits_false(checks[0].ast, lab == "t")]
+            side = [d for d, lab in checks[0].succ if lab in bad_labs]
+            region = cfg.reach(side, avoid=[checks[0].id], edge_ok=lambda s_, d_, lab: lab not in ("e", "h")) if side else set()
+            rraises = [cfg.nodes[i_] for i_ in sorted(region) if cfg.nodes[i_].kind == "stmt" and isinstance(cfg.nodes[i_].ast, ast.Raise)]
+            ok_te = bool(side) and len(bad_labs) == 1 and bool(rraises) and cfg.exit not in region and ctor[0].id not in region and all(r.ast.exc is not None and "TypeError" in ast.unparse(exc_expr(r.ast)) for r in rraises)
+            rep.check("C14.R5", ok_te, init, checks[0].ast, "a non-Component type raises TypeError", "a non-Component type does not raise TypeError")
